@@ -123,6 +123,20 @@ class WindowedCoordinator:
                     )
                     break
 
+            # Cross-partition events exchanged at the last barrier can be due
+            # exactly at end_time; they are still within the run, so give every
+            # partition one final pass up to end_time.
+            if current_time == self._end_time and any(
+                sim._event_heap.has_events() for sim in self._simulations.values()
+            ):
+                futures = {
+                    pool.submit(self._run_partition_window, name, current_time): name
+                    for name in self._simulations
+                }
+                for future in as_completed(futures):
+                    name, elapsed = future.result()
+                    partition_wall_times[name] += elapsed
+
         # Finalize each partition
         partition_summaries = {}
         for name, sim in self._simulations.items():
